@@ -93,10 +93,10 @@ MW_LABELS = [m[0] for m in MW]
 # one multi-worker case every PERIOD cases
 PERIOD = {"quick": 32, "thorough": 24}
 BUDGET = {
-    "quick": dict(cases=128, shards=4, timeout=420),
+    "quick": dict(cases=128, shards=4, timeout=600),
     "thorough": dict(cases=360, shards=16, timeout=1500),
 }
-MW_TIMEOUT = {"quick": 150, "thorough": 240}
+MW_TIMEOUT = {"quick": 120, "thorough": 240}
 
 _SUBS = {
     "trn": ["plain", "unk", "empty", "alt", "skip", "feat", "hostile_ids", "spacing"],
@@ -113,7 +113,7 @@ FLOORS = {
         "classes": dict({f: 20 for f in INPROC}, **{"affix:prefix": 20, "affix:suffix": 20, "affix:both": 10,
                                                     "ali:prefix": 4, "distractors": 30, "multi-worker": 13}),
         "stats": {"mw_ok:" + lab: 1 for lab in MW_LABELS},
-        "sets": {"completion_orders": 6, "reordered_completions": 2},
+        "sets": {"completion_orders": 12, "reordered_completions": 6},
         "distinct": 150,
     },
     "thorough": {
